@@ -46,14 +46,16 @@ def gen_cases(rng, n):
             # a quarter of the inputs are integer-typed arrays (the initial values stay fractional)
             int_in = rng.random() < 0.25
             X = [[Fraction(rng.randint(-9, 9)) for _ in range(dim)] for _ in range(T)] if int_in else rand_rows(rng, T, dim)
-            cases.append({"kind": "delay", "delay": d, "dim": dim, "init": init, "X": X, "int_input": int_in})
+            cases.append({"kind": "delay", "delay": d, "dim": dim, "init": init, "X": X, "int_input": int_in,
+                          "mode": rng.choice(["run", "run", "calls", "scribble"])})
         elif kind == "nvar":
             delay, order, strides = rng.randint(1, 3), rng.randint(1, 3), rng.randint(1, 3)
             dim = rng.randint(1, 3 if delay * order <= 4 else 2)
             T = rng.randint(1, 12)
             int_in = rng.random() < 0.2
             X = [[Fraction(rng.randint(-5, 5)) for _ in range(dim)] for _ in range(T)] if int_in else rand_rows(rng, T, dim, lim=6, maxpow=1)
-            cases.append({"kind": "nvar", "delay": delay, "order": order, "strides": strides, "dim": dim, "X": X, "int_input": int_in})
+            cases.append({"kind": "nvar", "delay": delay, "order": order, "strides": strides, "dim": dim, "X": X, "int_input": int_in,
+                          "mode": rng.choice(["run", "run", "calls", "scribble"])})
         elif kind == "concat":
             k = rng.randint(2, 4)
             cases.append({"kind": "concat", "data": [rand_rows(rng, 1, rng.randint(1, 3))[0] for _ in range(k)]})
@@ -69,6 +71,27 @@ def gen_cases(rng, n):
     return cases
 
 
+def _drive(node, Xa, mode):
+    """run: one run() call.  calls: step-by-step call(), the returned arrays are RETAINED and only read at the end (an output must not
+    be a view of a buffer the node goes on writing).  scribble: like calls, but the caller overwrites every returned array in place right
+    after copying its value (a returned array must not be shared with the node's memory)."""
+    if mode == "run":
+        return node.run(Xa)
+    kept, vals = [], []
+    for t in range(len(Xa)):
+        o = node.call(Xa[t:t + 1])
+        if mode == "scribble":
+            vals.append(np.array(o, dtype=float).reshape(1, -1))
+            try:
+                o[...] = 1000.0 + t
+            except (ValueError, TypeError):
+                pass
+        else:
+            kept.append(o)
+    rows = vals if mode == "scribble" else [np.array(o, dtype=float).reshape(1, -1) for o in kept]
+    return np.vstack(rows)
+
+
 def run_impl(c):
     """Run one scenario on reservoirpy; returns the observation dict."""
     rpy()
@@ -77,12 +100,14 @@ def run_impl(c):
     if c["kind"] == "delay":
         init = None if c["init"] is None else farr(c["init"])
         node = Delay(delay=c["delay"], initial_values=init, name=uname("dly"))
-        out = node.run(farr(c["X"]).astype(np.int64) if c.get("int_input") else farr(c["X"]))
+        Xa = farr(c["X"]).astype(np.int64) if c.get("int_input") else farr(c["X"])
+        out = _drive(node, Xa, c.get("mode", "run"))
         buf = [np.asarray(b).ravel().tolist() for b in node.buffer]
         return {"out": out.tolist(), "buf": buf}
     if c["kind"] == "nvar":
         node = NVAR(delay=c["delay"], order=c["order"], strides=c["strides"], name=uname("nvar"))
-        out = node.run(farr(c["X"]).astype(np.int64) if c.get("int_input") else farr(c["X"]))
+        Xa = farr(c["X"]).astype(np.int64) if c.get("int_input") else farr(c["X"])
+        out = _drive(node, Xa, c.get("mode", "run"))
         return {"out": out.tolist(), "store": np.asarray(node.store).tolist()}
     if c["kind"] == "concat":
         node = Concat(name=uname("cat"))
